@@ -15,17 +15,18 @@ def range_offset(ctx, rule):
     if not ctx.check(len(tok) == 1, rule, fn, "token-local", "lookup_token builds one Token"):
         return
     T = tok[0]
-    roles = {T: "token"}
+    roles = {}  # the token's `raw` is the element the search returned (a field the literal set and nothing overwrites)
+    RAW = "try(utils::greatest_lower_bound(arg1.tokens,tuple(arg2,arg3),\u03bb(tuple(p1.dst_line,p1.dst_col)))).1"
     writes = []
     for bi, si, s, is_term in body.locations():
         if not is_term and s["k"] == "assign" and s["place"]["l"] == T and s["place"]["p"] and s["place"]["p"][-1].get("n") == "offset":
             writes.append((bi, si, q.shape(body.expr_of_rvalue(s["rv"]), roles)))
     ctx.check(len(writes) == 1, rule, fn, "offset:one-write", "the range offset is written at exactly one place", detail=str(writes))
     for bi, si, sh in writes:
-        ctx.check(sh in ("Sub(arg3,token.raw.dst_col)", "u32::saturating_sub(arg3,token.raw.dst_col)", "u32::wrapping_sub(arg3,token.raw.dst_col)"), rule, fn, "offset:value",
+        ctx.check(sh in ("Sub(arg3,%s.dst_col)" % RAW, "u32::saturating_sub(arg3,%s.dst_col)" % RAW, "u32::wrapping_sub(arg3,%s.dst_col)" % RAW), rule, fn, "offset:value",
                   "the offset is the query column minus the token's generated column", ctx.site(body, bi, si), detail=sh)
-        ctx.check(has_fact(body, bi, roles, ("true", "token.raw.is_range", None)), rule, fn, "offset:is_range", "the offset is applied only to range tokens", ctx.site(body, bi, si))
-        ctx.check(has_fact(body, bi, roles, ("Eq", "token.raw.dst_line", "arg2"), ("Eq", "arg2", "token.raw.dst_line")), rule, fn, "offset:same-line",
+        ctx.check(has_fact(body, bi, roles, ("true", "%s.is_range" % RAW, None)), rule, fn, "offset:is_range", "the offset is applied only to range tokens", ctx.site(body, bi, si))
+        ctx.check(has_fact(body, bi, roles, ("Eq", "%s.dst_line" % RAW, "arg2"), ("Eq", "arg2", "%s.dst_line" % RAW)), rule, fn, "offset:same-line",
                   "the offset is applied only when the lookup is on the token's own generated line (a token reached from a later line reports its own position)", ctx.site(body, bi, si))
     init = [sh for sh, site, _ in q.def_shapes(body, T, roles)]
     ctx.check(len(init) == 1 and init[0].endswith(",offset:0}"), rule, fn, "offset:init-0", "the Token starts with offset 0 (non-range tokens report their own column)", detail=str(init)[:300])
